@@ -211,8 +211,11 @@ void rt_ev (uint32_t code) {
 /* ---- distinct signature set ---- */
 static uint64_t *hset; static size_t hcap, hcnt;
 static uint64_t *hset_nt; static size_t hcap_nt, hcnt_nt;
+#define HSET_MAX ((size_t) 1 << 22)     /* per process; beyond it the count stays a lower bound (summary: distinct_capped) */
+static int hset_capped;
 static int hset_add (uint64_t **set, size_t *cap, size_t *cnt, uint64_t v) {
 	if (v == 0) v = 1;
+	if (*cnt >= HSET_MAX) { hset_capped = 1; return (0); }
 	if (*cnt * 2 + 2 > *cap) {
 		size_t ncap = *cap ? *cap * 2 : 1024; uint64_t *n = (uint64_t *) calloc (ncap, 8);
 		for (size_t i = 0; i < *cap; i++) if ((*set)[i]) { size_t j = (*set)[i] % ncap; while (n[j]) j = (j + 1) % ncap; n[j] = (*set)[i]; }
@@ -877,7 +880,7 @@ static void write_summary (uint64_t rounds_done, double wall, char **samples, in
 	fprintf (f, "{\"scenario\":\"%s\",\"property\":\"%s\",\"mode\":\"%s\",\"config\":\"%s\",\"seed\":%llu,\"start_round\":%llu,\"rounds\":%llu,\"steps\":%llu,\"switches\":%llu",
 		 rt_scen.name, rt_scen.property, mode_b ? "B" : "A", config_name, (unsigned long long) base_seed, (unsigned long long) start_round,
 		 (unsigned long long) rounds_done, (unsigned long long) total_steps, (unsigned long long) total_switches);
-	fprintf (f, ",\"distinct\":%zu,\"distinct_nontrivial\":%zu,\"faults_fired\":%llu,\"wall_s\":%.3f", hcnt, hcnt_nt, (unsigned long long) faults_fired, wall);
+	fprintf (f, ",\"distinct\":%zu,\"distinct_nontrivial\":%zu,\"distinct_capped\":%d,\"faults_fired\":%llu,\"wall_s\":%.3f", hcnt, hcnt_nt, hset_capped, (unsigned long long) faults_fired, wall);
 	fprintf (f, ",\"word_values_seen\":%ld,\"word_transitions_seen\":%ld", wvals_n, wtrans_n);
 	fprintf (f, ",\"counters\":{");
 	{ int first = 1; for (int i = 0; i < 64; i++) if (cover_names[i]) { fprintf (f, "%s\"%s\":%ld", first ? "" : ",", cover_names[i], cover[i]); first = 0; } }
